@@ -73,6 +73,9 @@ def gen_cases(tier):
             for r in range(0, k + 1):
                 for sub in itertools.combinations(range(15), r):
                     yield ('color', kind, v, sub, r % 2)
+            if kind in ('png', 'svg'):
+                for sub in itertools.combinations(range(15), 1):
+                    yield ('color', kind, v, sub, 2)
     if not q:
         for v in ('M4', 7):
             for hi in range(0, 1 << 15, 64):
@@ -202,11 +205,15 @@ def do_color(fmt, v, sub, variant, acc):
     cls, val = Lo.function_map(v)
     kw = {OPTS[i]: OPT_COLOR[OPTS[i]] for i in sub}
     dark, light = '#000', ('#fff' if fmt != 'svg' else None)
-    if variant:
+    if variant == 2:
+        # transparent light modules + the first CSS colour as dark colour (the PNG writer's stand-in for "transparent")
+        dark, light = 'aliceblue', None
+        kw['dark'], kw['light'] = dark, light
+    elif variant:
         dark, light = 'darkblue', '#ffffe0'
         kw['dark'], kw['light'] = dark, light
-    border = 1 if variant else None
-    scale = 2 if variant else 1
+    border = 1 if variant == 1 else None
+    scale = 2 if variant == 1 else 1
     if border is not None:
         kw['border'] = border
     if scale != 1:
